@@ -1637,12 +1637,105 @@ pub fn c12(ctx: &Ctx) -> Report {
         }
     }
     c12_concurrent_opens(ctx, &mut rep);
+    c12_file_backed(ctx, &mut rep);
     rep
 }
 
 /// Tables are OPENED concurrently on one shared cache: every thread opens its own image (same keys and
 /// layout, its own values) again and again, records the cache id of each handle and reads through it.
 /// Judge: all ids handed out are pairwise distinct and every result is the thread's own data.
+/// Tables opened from real FILES (Table::new_from_file; `impl RandomAccess for File`) shared by threads through
+/// clones, with a cache of capacity 1 so that almost every access reads the file: a positional read is safe, a
+/// seek-then-read on the shared descriptor is not. Equal-sized and different-sized blocks; every answer must equal
+/// the single-threaded answer, no error, no panic.
+fn c12_file_backed(ctx: &Ctx, rep: &mut Report) {
+    let dir = std::path::Path::new("/verif/.cache/tmpfiles");
+    let _ = std::fs::create_dir_all(dir);
+    let mut rng = Rng::new(ctx.seed ^ 0xF11E);
+    for round in 0..(if ctx.thorough() { 6 } else { 2 }) {
+        let equal = round % 2 == 0;
+        let n = 120usize;
+        let es: Vec<(Vec<u8>, Vec<u8>)> = (0..n)
+            .map(|i| (format!("key{:04}", i).into_bytes(), if equal { format!("value-{:04}", i).into_bytes() } else { vec![b'v'; 1 + (i * 7) % 23] }))
+            .collect();
+        let path = dir.join(format!("c12-{}-{}-{}.sst", std::process::id(), ctx.seed, round));
+        {
+            let f = match std::fs::File::create(&path) {
+                Ok(f) => f,
+                Err(e) => {
+                    rep.notes.push(format!("cannot create a table file: {}", e));
+                    return;
+                }
+            };
+            let mut o = Options::default();
+            o.block_size = 40;
+            let mut b = sstable::TableBuilder::new(o, std::io::BufWriter::new(f));
+            for (k, v) in es.iter() {
+                b.add(k, v).unwrap();
+            }
+            b.finish().unwrap();
+        }
+        let tb = match Table::new_from_file(Options::default().with_cache_capacity(1), &path) {
+            Ok(t) => t,
+            Err(e) => {
+                rep.judge_fail(J::obj(vec![("what", J::s("a table file just written does not open")), ("error", J::s(&format!("{:?}", e.code)))]));
+                let _ = std::fs::remove_file(&path);
+                return;
+            }
+        };
+        let nthreads = 8usize;
+        let scripts: Vec<Vec<usize>> = (0..nthreads).map(|_| (0..400).map(|_| rng.below(n)).collect()).collect();
+        let bad = Arc::new(std::sync::Mutex::new(Vec::<String>::new()));
+        let mut hs = vec![];
+        for script in scripts.into_iter() {
+            let t = tb.clone();
+            let es = es.clone();
+            let bad = bad.clone();
+            hs.push(std::thread::spawn(move || {
+                for (step, i) in script.iter().enumerate() {
+                    let got = t.get(&es[*i].0);
+                    let ok = matches!(&got, Ok(Some(v)) if *v == es[*i].1);
+                    if !ok {
+                        bad.lock().unwrap().push(format!("get({}) = {:?}", String::from_utf8_lossy(&es[*i].0), got.map(|v| v.map(|x| hex(&x))).map_err(|e| e.code)));
+                        return;
+                    }
+                    if step % 97 == 0 {
+                        let mut it = t.iter();
+                        let mut cnt = 0usize;
+                        let mut last: Option<Vec<u8>> = None;
+                        while let Some((k, _)) = it.next() {
+                            if let Some(l) = &last {
+                                if *l >= k {
+                                    bad.lock().unwrap().push(format!("scan out of order at entry {}", cnt));
+                                    return;
+                                }
+                            }
+                            last = Some(k);
+                            cnt += 1;
+                        }
+                        if cnt != es.len() {
+                            bad.lock().unwrap().push(format!("scan yields {} of {} entries", cnt, es.len()));
+                            return;
+                        }
+                    }
+                }
+            }));
+        }
+        let mut panicked = 0;
+        for h in hs {
+            if h.join().is_err() {
+                panicked += 1;
+            }
+        }
+        let _ = std::fs::remove_file(&path);
+        rep.case(&format!("file-backed round {} seed {}", round, ctx.seed), true);
+        rep.count("file_backed_thread_runs");
+        let bad = bad.lock().unwrap();
+        if panicked > 0 || !bad.is_empty() {
+            rep.judge_fail(J::obj(vec![("what", J::s("threads sharing clones of a FILE-backed table (cache capacity 1) get wrong answers, errors or panic")), ("blocks", J::s(if equal { "equal-sized" } else { "different-sized" })), ("threads_panicked", J::N(panicked)), ("first_wrong", J::s(&bad.iter().take(3).cloned().collect::<Vec<_>>().join("; ")))]));
+        }
+    }
+}
 fn c12_concurrent_opens(ctx: &Ctx, rep: &mut Report) {
     let nthreads = 8usize;
     let rounds = if ctx.thorough() { 30000 } else { 4000 };
